@@ -620,6 +620,23 @@ func extremeFirstIn(vals []int, single bool) c03In {
 	return in
 }
 
+// analyze over samples that are large compared with their spread (epoch milliseconds): the mean and the
+// sample standard deviation are checked against exact integer arithmetic in Coq
+func largeOffsetIn(r *Rng) c03In {
+	in := c03In{Cmd: "analyze", Regex: `^([^|]*)\|([^|]*)\|([^|]*)$`, Extract: []pipe.KPiece{{Kind: "group", Idx: 3}}}
+	base := Pick(r, []int64{1700000000000, 1700000000000, 4102444800000, -62135596800000})
+	for f := 0; f < 3; f++ {
+		var b []byte
+		for i, n := 0, 100+r.Intn(200); i < n; i++ {
+			b = append(b, []byte(fmt.Sprintf("k%d|x|%d\n", i, base+int64(r.Intn(1000))))...)
+		}
+		in.Files = append(in.Files, c03File{Name: fmt.Sprintf("ms%d.log", f), Content: hex.EncodeToString(b)})
+	}
+	in.Variants = []variant{{Workers: 1, Batch: 1000, Buffer: 1, Readers: 1, Gomaxprocs: 1}, {Workers: 1, Batch: 1, Buffer: 4, Readers: 1, Gomaxprocs: 4},
+		{Workers: 1, Batch: 7, Buffer: 1, Readers: 1, Gomaxprocs: 16}, {Workers: 1, Batch: 1000, Buffer: 4, Readers: 1, Gomaxprocs: 2}}
+	return in
+}
+
 func main() {
 	Main(&Prop{
 		Name:   "C03",
@@ -642,6 +659,9 @@ func main() {
 			}
 			if n > 7 {
 				ins[5], ins[6] = extremeFirstIn([]int{900, 30, 20, 30, 5}, false), extremeFirstIn([]int{7}, true)
+			}
+			if n > 8 {
+				ins[7] = largeOffsetIn(r)
 			}
 			// strict twins: the same input, only the byte-for-byte comparison of the snapshot texts (known finding)
 			for i := 0; i < n && len(ins) < n+n/6+2; i++ {
